@@ -53,19 +53,36 @@ def _key(case, key, lo=0):
     return labs if len(labs) != 1 else labs[0]
 
 
+class _Shape(Exception):
+    """a MetricFrame result does not have the documented shape (cannot be read by column / group key)"""
+
+
 def _get(res, col, key, has_key):
     import pandas as pd
     x = res
-    if isinstance(x, pd.DataFrame):
-        x = x[col]
-    elif isinstance(x, pd.Series) and col is not None and not has_key:
-        return x[col]
-    if has_key:
-        return x[key]
+    try:
+        if isinstance(x, pd.DataFrame):
+            x = x[col]
+        elif isinstance(x, pd.Series) and col is not None and not has_key:
+            return x[col]
+        if has_key:
+            return x[key]
+    except (IndexError, KeyError, TypeError, AttributeError) as e:
+        raise _Shape(f"{type(res).__name__} {res!r} cannot be read at column {col!r} / key {key!r}: {e!r}")
     return x
 
 
 def _one(args):
+    """total verdict: a result that cannot be read as the documented table is a violation, not a crash of the check"""
+    try:
+        return _one_inner(args)
+    except _Shape as e:
+        case = args[0]
+        return ([({"api": "result_shape", "kind": "unreadable", "ns": case["ns"], "nc": case["nc"]}, f"result not shaped as documented: {e}", {"rows": case["rows"]})],
+                1, (bool(case["empty_cell"]), bool(case["singleton"])))
+
+
+def _one_inner(args):
     case, seed = args
     import pandas as pd
     import fairlearn.metrics as fm
@@ -133,6 +150,11 @@ def _one(args):
                 bg = mf.by_group
                 # --- index: exactly the observed values / their Cartesian product
                 exp_index = {_key(case, c["key"]) for c in case["cells"]}
+                if not isinstance(bg, (pd.Series, pd.DataFrame)):
+                    # total verdict: a by_group that is not a table indexed by the groups (e.g. a bare scalar for a single group) is an index violation
+                    out.append(({"api": "by_group.index", "kind": "not_a_table", "single_row": len(exp_index) == 1, **sig0},
+                                f"by_group is a {type(bg).__name__} ({bg!r}), not a Series/DataFrame indexed by {sorted(map(str, exp_index))}", detail))
+                    continue
                 got_index = list(bg.index)
                 if set(got_index) != exp_index or len(got_index) != len(exp_index):
                     out.append(({"api": "by_group.index", "kind": "index", **sig0}, f"by_group index {sorted(map(str, got_index))} != product of observed values {sorted(map(str, exp_index))}", detail))
